@@ -27,7 +27,7 @@ var (
 	names   = []string{"v1", "v11", "v2", "1.0", "a/b", "a", "V1", "v1.1"}
 	tails   = []string{"", "/", "/x", "/x/y", "x", "/v1/x", "//", "/\xff", "/v2/"}
 	mtypes  = []string{"application/json", "text/html", "*/*", "application/vnd.x+json", "a/b"}
-	hostile = []string{"", ";", "a/b;", "a/b; version", "a/b; version=", "\xff", "a/b; version=\"v1", "a/b;;version=v1", "version=v1", "a/b; q=0.9, c/d; version=v1"}
+	hostile = []string{"a/b; version=\"v1,5\"", "a/b; version=v1, c/d", "", ";", "a/b;", "a/b; version", "a/b; version=", "\xff", "a/b; version=\"v1", "a/b;;version=v1", "version=v1", "a/b; q=0.9, c/d; version=v1"}
 )
 
 func decorate(t *rapid.T, v string) string {
@@ -81,6 +81,12 @@ func gen(t *rapid.T) Case {
 			a = rapid.SampledFrom(mtypes).Draw(t, "mtype") + rapid.SampledFrom([]string{"; ", ";", " ; "}).Draw(t, "sep") + k + "=" + v
 			if rapid.Bool().Draw(t, "more") {
 				a += "; charset=utf-8"
+			}
+			switch rapid.IntRange(0, 7).Draw(t, "comma") {
+			case 0:
+				a += ", text/html" // a list of media ranges is not one media type
+			case 1:
+				a += `; note="a,b"` // a comma inside a quoted value is
 			}
 		case 5:
 			a = rapid.SampledFrom(mtypes).Draw(t, "plain")
